@@ -267,6 +267,9 @@ def classify(view, sid):
             a = n.get("a", [])
             if nm == "axpy" and len(a) == 2:
                 return {"kind": "axpy", "dst": recv, "src": view.obj(a[0]), "alpha": a[1], "n": n, "src_node": a[0]}
+            if nm == "scale" and len(a) == 2 and rk == "vec":
+                # dst := alpha * src  (overwrites dst)
+                return {"kind": "scale", "dst": recv, "src": view.obj(a[0]), "alpha": a[1], "n": n, "src_node": a[0]}
             if nm == "copy" and len(a) >= 1:
                 return {"kind": "copy", "dst": recv, "src": view.obj(a[0]), "n": n, "dst_node": n["obj"], "src_node": a[0]}
             if nm == "format" and rk == "vec":
